@@ -241,7 +241,13 @@ func c08Expect(keys []string, r *c08Res, sc, sn map[string]bool) *c08Want {
 // individually projected key, and the remaining name.
 func c08RHS(r *c08Res, sc, sn map[string]bool) string {
 	var sb strings.Builder
-	sb.WriteString(c08MapCanon(c08FileCfg(r, nil)))
+	// A key that is projected individually is compared by its configured
+	// VALUE below (a plain key reads internal configuration too, e.g. .file);
+	// whether that value is file or internal configuration in a given result
+	// is not observable through any projection, so such keys are left out of
+	// the file-configuration part (false alarm of the thorough tier after the
+	// generator began to carry file keys as internal configuration).
+	sb.WriteString(c08MapCanon(c08FileCfg(r, sc)))
 	ks := make([]string, 0, len(sc)+len(sn))
 	for k := range sc {
 		ks = append(ks, k)
